@@ -43,7 +43,7 @@ fn oracle(s: &ProgScene<X>, t: &Trace) -> Vec<Violation> {
             let Some(o) = an.op(c as u8, i as u16) else { break };
             let ok = o.res.is_some_and(|r| r.is_ok());
             match op {
-                Op::Clone(h) | Op::ToSender(h) | Op::ToCaller(h) if (is_strong(h) || matches!(op, Op::ToSender(_) | Op::ToCaller(_))) && ok => {
+                Op::Clone(h) | Op::ToSender(h) | Op::ToCaller(h) | Op::ToAddr(h) if (is_strong(h) || matches!(op, Op::ToSender(_) | Op::ToCaller(_) | Op::ToAddr(_))) && ok => {
                     if let Some(e) = o.end {
                         deltas.push((e, 1));
                         held += 1;
@@ -224,6 +224,9 @@ fn scripts() -> Vec<(&'static str, Vec<HInit>, Vec<Op>)> {
         ("held-caller", vec![HInit::Cal], vec![Op::Call(H::Cal(0), 10), Op::Downgrade(H::Cal(0)), Op::Drop(H::Cal(0)), Op::UpgradeProbe(H::WCal(0))]),
         // the owner goes first, neither detached nor joined: the address derived from it is as strong as any
         ("owner-dropped-first", vec![HInit::Own], vec![Op::ToAddr(H::Own(0)), Op::Drop(H::Own(0)), Op::Send(H::Addr(0), 14), Op::Call(H::Addr(0), 15), Op::Drop(H::Addr(0))]),
+        // a join future that is pending is no handle at all: with the owner and every address gone
+        // the actor drains and stops at once, the future (still held) then yields it
+        ("owner-join-pending", vec![HInit::Own], vec![Op::JoinStart(H::Own(0)), Op::ToAddr(H::Own(0)), Op::Drop(H::Own(0)), Op::Send(H::Addr(0), 18), Op::Drop(H::Addr(0)), Op::Sleep(3), Op::JoinAwait(0)]),
         // ... and the owner as the last strong handle
         ("owner-dropped-last", vec![HInit::Own], vec![Op::ToAddr(H::Own(0)), Op::Send(H::Addr(0), 16), Op::Drop(H::Addr(0)), Op::Call(H::Own(0), 17), Op::Drop(H::Own(0))]),
     ]
@@ -582,7 +585,7 @@ fn cases(tier: Tier) -> Vec<Case> {
                     desc: format!("lifetime [held by the parent's child list only, two siblings died before it] cause={cause:?}"),
                     exec: ExecCfg { horizon: 30, ..ExecCfg::default() },
                     bound: Some(if tier == Tier::Quick { 4 } else { 7 }),
-                    scene: Box::new(S { nodes: tree.clone(), cause, bcasts: vec![(1, 601), (1, 603)], mailbox: Mailbox::U, pid: "C05", restart_root: false, slow_stop: None, child_timers: false, late_registration: false }),
+                    scene: Box::new(S { nodes: tree.clone(), cause, bcasts: vec![(1, 601), (1, 603)], mailbox: Mailbox::U, pid: "C05", restart_root: false, slow_stop: None, child_timers: false, late_registration: false, child_restarts: false }),
                 });
             }
         }
@@ -596,7 +599,7 @@ fn cases(tier: Tier) -> Vec<Case> {
                         desc: format!("lifetime [held by the parent's child list only, a sibling is added twice] cause={cause:?} mailbox={}", mb.name()),
                         exec: ExecCfg { horizon: 30, ..ExecCfg::default() },
                         bound: Some(if tier == Tier::Quick { 4 } else { 7 }),
-                        scene: Box::new(S { nodes: tree.clone(), cause, bcasts: vec![(1, 601)], mailbox: mb, pid: "C05", restart_root: false, slow_stop: None, child_timers: false, late_registration: false }),
+                        scene: Box::new(S { nodes: tree.clone(), cause, bcasts: vec![(1, 601)], mailbox: mb, pid: "C05", restart_root: false, slow_stop: None, child_timers: false, late_registration: false, child_restarts: false }),
                     });
                 }
             }
@@ -609,7 +612,7 @@ fn cases(tier: Tier) -> Vec<Case> {
                         desc: format!("lifetime [held by the parent's child list only, parent restarted first] reg={reg:?} cause={cause:?} mailbox={}", mb.name()),
                         exec: ExecCfg { horizon: 30, ..ExecCfg::default() },
                         bound: None,
-                        scene: Box::new(S { nodes: tree.clone(), cause, bcasts: vec![(1, 601)], mailbox: mb, pid: "C05", restart_root: true, slow_stop: None, child_timers: false, late_registration: false }),
+                        scene: Box::new(S { nodes: tree.clone(), cause, bcasts: vec![(1, 601)], mailbox: mb, pid: "C05", restart_root: true, slow_stop: None, child_timers: false, late_registration: false, child_restarts: false }),
                     });
                     // ... and through a burst of broadcasts from the parent (more than a small
                     // bounded mailbox of the child has room for), without any restart
@@ -617,7 +620,7 @@ fn cases(tier: Tier) -> Vec<Case> {
                         desc: format!("lifetime [held by the parent's child list only, burst of broadcasts] reg={reg:?} cause={cause:?} mailbox={}", mb.name()),
                         exec: ExecCfg { horizon: 30, ..ExecCfg::default() },
                         bound: None,
-                        scene: Box::new(S { nodes: tree.clone(), cause, bcasts: vec![(1, 601), (1, 603), (1, 604), (1, 605)], mailbox: mb, pid: "C05", restart_root: false, slow_stop: None, child_timers: false, late_registration: false }),
+                        scene: Box::new(S { nodes: tree.clone(), cause, bcasts: vec![(1, 601), (1, 603), (1, 604), (1, 605)], mailbox: mb, pid: "C05", restart_root: false, slow_stop: None, child_timers: false, late_registration: false, child_restarts: false }),
                     });
                 }
             }
